@@ -150,3 +150,10 @@ mod test {
         assert_eq!(130, min_max.get());
     }
 }
+
+#[cfg(feature = "__verif-hooks")]
+#[allow(missing_docs, unreachable_pub, dead_code, unused_imports, unused_qualifications)]
+pub mod verif {
+    use super::*;
+    include!(concat!(env!("QUINN_VERIF_HOOKS"), "/proto/congestion/bbr/min_max.rs"));
+}
